@@ -164,6 +164,37 @@ func genSoup(t *rapid.T) *Soup {
 	case k < 15:
 		sp.Mode = "mutated"
 		sp.Pre = []byte(mutatedStatement(t))
+	case k < 16:
+		// a valid statement cut off in the middle, half of the time right after a character that opens something
+		// (back quote, quote, parenthesis, comma, =): every clause parser meets an unfinished token
+		sp.Mode = "cut"
+		var st *Stmt
+		switch rapid.IntRange(0, 3).Draw(t, "cshape") {
+		case 0:
+			st = genDirect(t, false)
+		case 1:
+			st = genWindowStmt(t)
+		default:
+			st = genMRStmt(t)
+		}
+		text := render(st.toks(), genLayout(t))
+		var after []int
+		for i := 0; i < len(text); i++ {
+			if strings.IndexByte("`'\"(,=", text[i]) >= 0 {
+				after = append(after, i+1)
+			}
+		}
+		cut := 0
+		if len(text) > 0 {
+			cut = rapid.IntRange(0, len(text)).Draw(t, "cutAt")
+		}
+		if len(after) > 0 && chance(t, "cutAfterOpener", 50) {
+			cut = after[rapid.IntRange(0, len(after)-1).Draw(t, "cutOpener")]
+		}
+		sp.Pre = []byte(text[:cut])
+		if chance(t, "cutTail", 30) {
+			sp.Pre = append(sp.Pre, pick(t, "tail", []string{"`", "'", "\"", "(", " ", "``", "`a"})...)
+		}
 	case k < 18:
 		sp.Mode = "run"
 		sp.Pre = []byte(pick(t, "pre", soupPrefixes))
